@@ -21,4 +21,6 @@ h, err = m.build_harness()
 if h is None:
     print(err); sys.exit(1)
 print('harness:', h)
+res, err = m.run_loom('C01')
+print('loomsearch:', 'ok' if not err else err[-500:])
 PY
